@@ -936,28 +936,28 @@ fn match_all(
                 }
             }
             (Value::Array(x), _) => {
-                let mut found = false;
+                // NOTE: Each needle may be found in a different element, just like when the
+                // needles are searched one by one
+                let mut seen = vec![false; m.len()];
                 for v in x.iter() {
-                    if let Some(x) = v.as_str() {
-                        if slow_aho(a, m, x) == m.len() as u64 {
-                            found = true;
-                            break;
+                    let text;
+                    let x = match v.as_str() {
+                        Some(x) => x,
+                        None if *c => {
+                            text = match v {
+                                Value::Bool(x) => x.to_string(),
+                                Value::Float(x) => x.to_string(),
+                                Value::Int(x) => x.to_string(),
+                                Value::UInt(x) => x.to_string(),
+                                _ => continue,
+                            };
+                            text.as_str()
                         }
-                    } else if *c {
-                        let x = match v {
-                            Value::Bool(x) => x.to_string(),
-                            Value::Float(x) => x.to_string(),
-                            Value::Int(x) => x.to_string(),
-                            Value::UInt(x) => x.to_string(),
-                            _ => continue,
-                        };
-                        if slow_aho(a, m, x.as_str()) == m.len() as u64 {
-                            found = true;
-                            break;
-                        }
-                    }
+                        None => continue,
+                    };
+                    mark_aho(a, m, x, &mut seen);
                 }
-                if !found {
+                if seen.iter().any(|hit| !hit) {
                     return SolverResult::False;
                 }
             }
@@ -1019,36 +1019,28 @@ fn match_all(
                 }
             }
             (Value::Array(x), _) => {
-                let mut found = false;
+                let mut seen = vec![false; s.patterns().len()];
                 for v in x.iter() {
-                    if let Some(x) = v.as_str() {
-                        let mut hits = 0;
-                        for _ in s.matches(x).iter() {
-                            hits += 1;
+                    let text;
+                    let x = match v.as_str() {
+                        Some(x) => x,
+                        None if *c => {
+                            text = match v {
+                                Value::Bool(x) => x.to_string(),
+                                Value::Float(x) => x.to_string(),
+                                Value::Int(x) => x.to_string(),
+                                Value::UInt(x) => x.to_string(),
+                                _ => continue,
+                            };
+                            text.as_str()
                         }
-                        if hits == s.patterns().len() {
-                            found = true;
-                            break;
-                        }
-                    } else if *c {
-                        let x = match v {
-                            Value::Bool(x) => x.to_string(),
-                            Value::Float(x) => x.to_string(),
-                            Value::Int(x) => x.to_string(),
-                            Value::UInt(x) => x.to_string(),
-                            _ => continue,
-                        };
-                        let mut hits = 0;
-                        for _ in s.matches(x.as_str()).iter() {
-                            hits += 1;
-                        }
-                        if hits == s.patterns().len() {
-                            found = true;
-                            break;
-                        }
+                        None => continue,
+                    };
+                    for i in s.matches(x).iter() {
+                        seen[i] = true;
                     }
                 }
-                if !found {
+                if seen.iter().any(|hit| !hit) {
                     return SolverResult::False;
                 }
             }
@@ -1186,25 +1178,29 @@ fn match_of(
                 }
             }
             (Value::Array(x), _) => {
+                // NOTE: Each needle may be found in a different element, just like when the
+                // needles are searched one by one
+                let mut seen = vec![false; m.len()];
                 for v in x.iter() {
-                    if let Some(x) = v.as_str() {
-                        let hits = slow_aho(a, m, x);
-                        if hits >= count {
-                            return SolverResult::True;
+                    let text;
+                    let x = match v.as_str() {
+                        Some(x) => x,
+                        None if *cast => {
+                            text = match v {
+                                Value::Bool(x) => x.to_string(),
+                                Value::Float(x) => x.to_string(),
+                                Value::Int(x) => x.to_string(),
+                                Value::UInt(x) => x.to_string(),
+                                _ => continue,
+                            };
+                            text.as_str()
                         }
-                    } else if *cast {
-                        let x = match v {
-                            Value::Bool(x) => x.to_string(),
-                            Value::Float(x) => x.to_string(),
-                            Value::Int(x) => x.to_string(),
-                            Value::UInt(x) => x.to_string(),
-                            _ => continue,
-                        };
-                        let hits = slow_aho(a, m, x.as_str());
-                        if hits >= count {
-                            return SolverResult::True;
-                        }
-                    }
+                        None => continue,
+                    };
+                    mark_aho(a, m, x, &mut seen);
+                }
+                if seen.iter().filter(|hit| **hit).count() as u64 >= count {
+                    return SolverResult::True;
                 }
             }
             (Value::Bool(x), true) => {
@@ -1269,31 +1265,29 @@ fn match_of(
                 }
             }
             (Value::Array(x), _) => {
+                let mut seen = vec![false; s.patterns().len()];
                 for v in x.iter() {
-                    if let Some(x) = v.as_str() {
-                        let mut hits = 0;
-                        for _ in s.matches(x).iter() {
-                            hits += 1;
+                    let text;
+                    let x = match v.as_str() {
+                        Some(x) => x,
+                        None if *cast => {
+                            text = match v {
+                                Value::Bool(x) => x.to_string(),
+                                Value::Float(x) => x.to_string(),
+                                Value::Int(x) => x.to_string(),
+                                Value::UInt(x) => x.to_string(),
+                                _ => continue,
+                            };
+                            text.as_str()
                         }
-                        if hits >= count {
-                            return SolverResult::True;
-                        }
-                    } else if *cast {
-                        let x = match v {
-                            Value::Bool(x) => x.to_string(),
-                            Value::Float(x) => x.to_string(),
-                            Value::Int(x) => x.to_string(),
-                            Value::UInt(x) => x.to_string(),
-                            _ => continue,
-                        };
-                        let mut hits = 0;
-                        for _ in s.matches(x.as_str()).iter() {
-                            hits += 1;
-                        }
-                        if hits >= count {
-                            return SolverResult::True;
-                        }
+                        None => continue,
+                    };
+                    for i in s.matches(x).iter() {
+                        seen[i] = true;
                     }
+                }
+                if seen.iter().filter(|hit| **hit).count() as u64 >= count {
+                    return SolverResult::True;
                 }
             }
             (Value::Bool(x), true) => {
@@ -1474,6 +1468,23 @@ fn search(kind: &Search, value: &str) -> SolverResult {
         }
     }
     SolverResult::False
+}
+
+// Marks the needles found in the value, used when the hits of several values have to be combined.
+#[inline]
+fn mark_aho(a: &AhoCorasick, m: &[MatchType], value: &str, seen: &mut [bool]) {
+    for i in a.find_overlapping_iter(value) {
+        let p = i.pattern();
+        let hit = match m[p] {
+            MatchType::Contains(_) => true,
+            MatchType::EndsWith(_) => i.end() == value.len(),
+            MatchType::Exact(_) => i.start() == 0 && i.end() == value.len(),
+            MatchType::StartsWith(_) => i.start() == 0,
+        };
+        if hit {
+            seen[p.as_usize()] = true;
+        }
+    }
 }
 
 #[inline]
